@@ -117,6 +117,27 @@ def gen(rng, tier):
         line = "%s %s %s I %s %s 1 R %s %s 1" % (op, KO.KIND[d['kind']], S.args(d), KO.opt(prm), ",".join(map(str, nr)),
                                                  KO.opt(prm), ",".join(map(str, nt)))
         out.append(Case(kind, line, dict(shape=d, dir=i, prm=prm, nr=nr, nt=nt)))
+    # the parameter value 0 (falsy in Python) strictly inside an un-normalised domain, inserted and removed again: a parameter
+    # like any other (every kind of shape in turn)
+    zc = 0
+    for _try in range(4000):
+        if zc >= (4 if tier == 'quick' else 40):
+            break
+        d = KO.rand_shape(rng)
+        ds_ = S.dirs(d)
+        i = zc % len(ds_)
+        p, kv, n_ = ds_[i]
+        if not (kv[p] < 0 < kv[n_]) or sum(1 for x in kv if x == 0) >= p:
+            continue
+        s0 = sum(1 for x in kv if x == 0)
+        r = rng.randint(1, p - s0)
+        nd_ = len(ds_)
+        prm = [None] * nd_; prm[i] = F(0)
+        nr = [0] * nd_; nr[i] = r
+        line = "ops %s %s I %s %s 1 R %s %s 1" % (KO.KIND[d['kind']], S.args(d), KO.opt(prm), ",".join(map(str, nr)),
+                                                KO.opt(prm), ",".join(map(str, nr)))
+        out.append(Case('ins-rem', line, dict(shape=d, dir=i, prm=prm, nr=nr, nt=list(nr)), tags=('zero-parameter',)))
+        zc += 1
     # degree mix-up probes (deterministic in what they cover): every direction i of a surface / volume in turn, ANOTHER direction
     # has a degree >= degree_i + 2, the knot goes into the FIRST span of direction i (a span / multiplicity search run with the
     # wrong direction's degree starts too far right and only shows there), one copy in, one copy out
